@@ -2,6 +2,7 @@ SPECIFICATION Spec
 CONSTANTS P = 4
           J = 2
           Horizon = 40
+          SweepStopsWriter = FALSE
           StopOnWriteError = FALSE
           MaxFaults = 1
 INVARIANTS LiveNeverStale DeadBecomesStale
